@@ -207,6 +207,11 @@ class ExprMixin:
             return nf.sym(f'{m.name}.{nm}')
         if k == 'missing':
             return Const(('missing', tgt[1]))
+        if k == 'classattr' and isinstance(tgt[1], ClassInfo):
+            v = self.load_attr(Const(tgt[1]), tgt[2], None, None)
+            a = v.single_atom() if isinstance(v, Poly) else None
+            if not (a is not None and a[0] == 'app' and a[1] == 'classattr'):
+                return v
         return nf.sym(name)
 
     # ------------------------------------------------------------- operators
@@ -553,6 +558,16 @@ class ExprMixin:
                 if val is not None:
                     if isinstance(val, ast.Constant) and isinstance(val.value, (str, int, float, bool)):
                         return self.e_Constant(val, None)
+                    if isinstance(val, (ast.Dict, ast.Tuple, ast.List)) and _table_expr(val):
+                        # a constant table kept on the class: read by value
+                        prev, self.cur = self.cur, _ModuleScope(c.module, self.cur)
+                        try:
+                            from .state import State
+                            return self.eval(val, State())
+                        except Exception:
+                            pass
+                        finally:
+                            self.cur = prev
                     break
             return app('classattr', P(base), Const(name))
         if isinstance(base, Slice):
